@@ -40,7 +40,7 @@ impl Response {
 		let n = name.to_ascii_lowercase();
 		self.headers.iter().filter(|(k, _)| *k == n).map(|(_, v)| v.as_str()).collect()
 	}
-	/// Body decoded according to Content-Encoding (absent / identity, gzip, br) with the harness's
+	/// Body decoded according to Content-Encoding (absent / identity, gzip, br, deflate) with the harness's
 	/// own flate2 / brotli decoders. `Err` if the encoding is unknown or the body does not decode.
 	pub fn decoded_body(&self) -> Result<Vec<u8>, String> {
 		let enc = self.headers_named("content-encoding");
@@ -51,6 +51,11 @@ impl Response {
 			None | Some("") | Some("identity") => Ok(self.body.clone()),
 			Some("gzip") | Some("x-gzip") => crate::util::gunzip(&self.body),
 			Some("br") => crate::util::brotli_d(&self.body),
+			Some("deflate") => {
+				let mut out = vec![];
+				flate2::read::ZlibDecoder::new(&self.body[..]).read_to_end(&mut out).map_err(|e| format!("deflate: {e}"))?;
+				Ok(out)
+			}
 			Some(other) => Err(format!("unknown Content-Encoding {other:?}")),
 		}
 	}
@@ -289,11 +294,54 @@ pub enum Exchange {
 	Dropped(TransportError),
 }
 
+/// A port that is free right now and has not been handed out by this process before (several
+/// runner threads start servers at the same time).
 fn free_port() -> u16 {
-	match TcpListener::bind("127.0.0.1:0").and_then(|l| l.local_addr()) {
-		Ok(a) => a.port(),
-		Err(e) => die(&format!("cannot find a free TCP port: {e}")),
+	use std::sync::Mutex;
+	static USED: Mutex<Vec<u16>> = Mutex::new(Vec::new());
+	for _ in 0..200 {
+		match TcpListener::bind("127.0.0.1:0").and_then(|l| l.local_addr()) {
+			Ok(a) => {
+				let mut g = USED.lock().unwrap();
+				if !g.contains(&a.port()) {
+					g.push(a.port());
+					return a.port();
+				}
+			}
+			Err(e) => die(&format!("cannot find a free TCP port: {e}")),
+		}
 	}
+	die("cannot find a free TCP port that was not used before")
+}
+
+/// Does the listening socket on 127.0.0.1:port belong to process `pid`? (Linux: the socket inode
+/// of the LISTEN entry in /proc/net/tcp is among the process's descriptors.) Another process may
+/// have taken the port between choosing it and the child's bind.
+fn child_listens(pid: u32, port: u16) -> bool {
+	let Ok(table) = std::fs::read_to_string("/proc/net/tcp") else { return true };
+	let want = format!("0100007F:{port:04X}");
+	let mut inodes = vec![];
+	for line in table.lines().skip(1) {
+		let f: Vec<&str> = line.split_whitespace().collect();
+		if f.len() > 9 && f[1] == want && f[3] == "0A" {
+			inodes.push(f[9].to_string());
+		}
+	}
+	if inodes.is_empty() {
+		return false;
+	}
+	let Ok(rd) = std::fs::read_dir(format!("/proc/{pid}/fd")) else { return false };
+	for e in rd.flatten() {
+		if let Ok(t) = std::fs::read_link(e.path()) {
+			let t = t.to_string_lossy().to_string();
+			if let Some(i) = t.strip_prefix("socket:[").and_then(|s| s.strip_suffix(']')) {
+				if inodes.iter().any(|x| x == i) {
+					return true;
+				}
+			}
+		}
+	}
+	false
 }
 
 impl Server {
@@ -337,7 +385,9 @@ impl Server {
 					if r.status == 200 && r.body.starts_with(b"ready") {
 						// make sure it is *our* child that answers (not another process that grabbed the port)
 						if let Ok(None) = server.child.try_wait() {
-							return Ok(server);
+							if child_listens(server.child.id(), port) {
+								return Ok(server);
+							}
 						}
 					}
 				}
